@@ -36,4 +36,10 @@ CLAIMED['C07'] = dict(
     technique='symbolic execution (CrossHair engine + z3) of export_string/export_options_validator with symbolic integer range over solver-enumerated score shapes',
     design='5 C07')
 
+CLAIMED['C19'] = dict(
+    text=BMC + 'C19: score shapes of C07, every subset of barline positions as cut set (<= 6 fragments) and the three separators are solver-enumerated selectors; concat() is compared with loads(joined) through a deep structural snapshot, the index pairs are checked for count, consecutiveness and end, and each pair is exported and compared with the data lines of its fragment.',
+    note=NOTE + 'Cuts are placed in front of barline lines; fragments whose first piece has no measure are outside (measures_count() raises by contract).',
+    technique='CrossHair-engine exhaustive enumeration (z3-decided selectors: shape, cut mask, separator) of Generic.concat against a text-level fragment model and structural snapshots',
+    design='5 C19')
+
 PENDING_REASON = 'check under construction in this session (to be claimed; see DESIGN.md section 5)'
